@@ -913,8 +913,10 @@ breaker('C11', 'creating-not-cached-early', 'C11.R1', CONNPY,
                     pass  # wrapped object: handled after the store, below
 ''', '')
 breaker('C11', 'abort-skips-cleanup', 'C11.R2', CONNPY, 'Connection.abort',
-        '''        self._invalidate_creating()
-        self._tpc_cleanup()''', '''        self._invalidate_creating()''')
+        '''            self._abort_savepoint()
+
+        self._tpc_cleanup()''', '''            self._abort_savepoint()
+''')
 breaker('C11', 'cleanup-keeps-registered', 'C11.R2', CONNPY,
         'Connection._tpc_cleanup',
         '''        self._registered_objects = []
@@ -2894,3 +2896,88 @@ twin('C09', 'packer-indexes-after-writing', PACKPY,
         self._tfile.write(data)
         self.index[h.oid] = pos
 ''')
+
+breaker('C11', 'abort-discards-savepoint-before-disowning', 'C11.R11', CONNPY,
+        'Connection.abort',
+        '''        self._invalidate_creating()
+
+        if self._savepoint_storage is not None:
+            self._abort_savepoint()
+
+        self._tpc_cleanup()
+''', '''        if self._savepoint_storage is not None:
+            self._abort_savepoint()
+
+        self._invalidate_creating()
+        self._tpc_cleanup()
+''')
+breaker('C11', 'created-ghost-disowned-empty', 'C11.R11', CONNPY,
+        'Connection._invalidate_creating',
+        '''                    try:
+                        o._p_activate()
+                    except Exception:
+                        pass  # no record to read: nothing to keep
+''', '''                    pass
+''')
+twin('C11', 'created-ghost-activation-nested-tests', CONNPY,
+     'Connection._invalidate_creating',
+     '''                if o._p_changed is None and not isinstance(o, Blob):
+                    # A ghost: a savepoint stored the object and the cache
+                    # let go of its state since.  Without a database it
+                    # could never get it back: load it while the record
+                    # can still be read.
+                    try:
+                        o._p_activate()
+                    except Exception:
+                        pass  # no record to read: nothing to keep
+''', '''                if o._p_changed is None:
+                    if not isinstance(o, Blob):
+                        try:
+                            o._p_activate()
+                        except Exception:
+                            pass
+''')
+breaker('C11', 'modified-list-forgotten-by-cleanup', 'C11.R12', CONNPY,
+        'Connection._tpc_cleanup',
+        '''        self._registered_objects = []
+        self._creating.clear()
+''', '''        self._registered_objects = []
+        self._modified = []
+        self._creating.clear()
+''')
+breaker('C13', 'refused-undo-removes-all-dirty-blobs', 'C13.R17', FSPY,
+        'FileStorage.undo',
+        '''                self._tfile.seek(buffered)
+                raise
+''', '''                self._tfile.seek(buffered)
+                self._blob_tpc_abort()
+                raise
+''')
+breaker('C01', 'connection-vote-skipped-when-nothing-stored', 'C01.R9', CONNPY,
+        'Connection.tpc_vote',
+        '''        transaction = transaction.data(self)
+
+        try:
+            s = vote(transaction)
+''', '''        if not (self._modified or self._creating or self._readCurrent):
+            return
+
+        transaction = transaction.data(self)
+
+        try:
+            s = vote(transaction)
+''')
+twin('C01', 'connection-vote-looked-up-with-getattr', CONNPY,
+     'Connection.tpc_vote',
+     '''        try:
+            vote = self._storage.tpc_vote
+        except AttributeError:
+            return
+''', '''        vote = getattr(self._storage, 'tpc_vote', None)
+        if vote is None:
+            return
+''')
+breaker('C14', 'weakref-dead-oid-test-for-unowned-only', 'C14.R11', SERPY,
+        'ObjectWriter.persistent_id',
+        'if target is not None and target._p_oid != oid:',
+        'if target is not None and target._p_oid is None:')
